@@ -97,6 +97,7 @@ def main(tier, replay=None):
                     os.makedirs(os.path.join(root, "shared"), exist_ok=True)
                     os.rename(os.path.join(root, "s.yaml"), os.path.join(root, "shared", "s.yaml"))
                     os.symlink(os.path.join("shared", "s.yaml"), os.path.join(root, "s.yaml"))
+                    sc.proj.stage_paths.append(b"shared/s.yaml")        # the same stage file seen through the link: metadata, not tracked data
                     sc.save()
                 before = sc.snapshot()
                 stage_old = {sp: (d[0] if d else None) for sp, d in before["stages"].items()}
